@@ -313,7 +313,8 @@ class Tensor(rigid.Box):
     def lambdify(self, *symbols, **kwargs):
         from sympy import lambdify
         array = lambdify(
-            symbols, self.array, **dict({'modules': Tensor.np}, **kwargs))
+            symbols, self.array.tolist(),
+            **dict({'modules': Tensor.np}, **kwargs))
         return lambda *xs: Tensor(self.dom, self.cod, array(*xs))
 
 
